@@ -204,7 +204,10 @@ def parse_rvalue(rv):
     if rv.startswith('&mut '):
         return ('ref', parse_place(rv[5:]))
     if rv.startswith('&raw '):
-        return ('ref', parse_place(rv.split(' ', 2)[2]))
+        rest = rv.split(' ', 2)[2]
+        if rest.startswith('(fake) '):
+            rest = rest[7:]
+        return ('ref', parse_place(rest))
     if rv.startswith('&fake shallow '):
         return ('ref', parse_place(rv[14:]))
     if rv.startswith('&'):
